@@ -1,7 +1,7 @@
 SPECIFICATION Spec
 CONSTANTS
   NP = 2
-  MaxNums = 3
+  MaxNums = 2
   Dev <- CarryDev
   Emit = FALSE
 INVARIANTS FunctionForm C CarryExplained
